@@ -108,11 +108,13 @@ func writeUnionClasses(w *formatting.IndentedWriter, td dsl.TypeDefinition, unio
 		case *dsl.GeneralizedType:
 			if node.Cases.IsUnion() {
 				unionClassName, typeParameters := common.UnionClassName(node)
+				if nt, isNamedType := td.(*dsl.NamedType); isNamedType && common.IsUnionOfNamedType(nt, node) {
+					// This is a named type defining a union, so we will use the named type's name instead
+					// (a union nested deeper inside the named type keeps its own class). The name is decided
+					// before looking it up: serializers refer to the alias as a class with tags of its own.
+					unionClassName = td.GetDefinitionMeta().Name
+				}
 				if _, ok := unions[unionClassName]; !ok {
-					if _, isNamedType := td.(*dsl.NamedType); isNamedType {
-						// This is a named type defining a union, so we will use the named type's name instead
-						unionClassName = td.GetDefinitionMeta().Name
-					}
 					if len(unions) == 0 {
 						w.WriteStringln("_T = typing.TypeVar('_T')\n")
 					}
@@ -207,7 +209,7 @@ func writeRecord(w *formatting.IndentedWriter, rec *dsl.RecordDefinition, st dsl
 					fieldTypeSyntax := common.TypeSyntax(f.Type, rec.Namespace)
 					fmt.Fprintf(w, "%s: ", fieldName)
 
-					defaultExpression, defaultExpressionKind := typeDefault(f.Type, rec.Namespace, "", st)
+					defaultExpression, defaultExpressionKind := typeDefault(f.Type, rec.Namespace, nil, st)
 					switch defaultExpressionKind {
 					case defaultValueKindNone:
 						w.WriteString(fieldTypeSyntax)
@@ -224,7 +226,7 @@ func writeRecord(w *formatting.IndentedWriter, rec *dsl.RecordDefinition, st dsl
 			w.Indented(func() {
 				for _, f := range rec.Fields {
 					fieldName := common.FieldIdentifierName(f.Name)
-					defaultExpression, defaultExpressionKind := typeDefault(f.Type, rec.Namespace, "", st)
+					defaultExpression, defaultExpressionKind := typeDefault(f.Type, rec.Namespace, nil, st)
 					switch defaultExpressionKind {
 					case defaultValueKindNone, defaultValueKindImmutable:
 						fmt.Fprintf(w, "self.%s = %s\n", fieldName, fieldName)
@@ -879,7 +881,7 @@ const (
 	defaultValueKindMutable
 )
 
-func typeDefault(t dsl.Type, contextNamespace string, namedType string, st dsl.SymbolTable) (string, defaultValueKind) {
+func typeDefault(t dsl.Type, contextNamespace string, namedType *dsl.NamedType, st dsl.SymbolTable) (string, defaultValueKind) {
 	switch t := t.(type) {
 	case nil:
 		return "None", defaultValueKindImmutable
@@ -888,14 +890,17 @@ func typeDefault(t dsl.Type, contextNamespace string, namedType string, st dsl.S
 	case *dsl.GeneralizedType:
 		switch td := t.Dimensionality.(type) {
 		case nil:
-			defaultExpression, defaultKind := typeDefault(t.Cases[0].Type, contextNamespace, "", st)
-			if t.Cases.IsSingle() || t.Cases.HasNullOption() {
+			if t.Cases.IsSingle() {
+				return typeDefault(t.Cases[0].Type, contextNamespace, namedType, st)
+			}
+			defaultExpression, defaultKind := typeDefault(t.Cases[0].Type, contextNamespace, nil, st)
+			if t.Cases.HasNullOption() {
 				return defaultExpression, defaultKind
 			}
 
 			var unionClassName string
-			if namedType != "" {
-				unionClassName = namedType
+			if common.IsUnionOfNamedType(namedType, t) {
+				unionClassName = common.TypeSyntax(namedType, contextNamespace)
 			} else {
 				unionClassName, _ = common.UnionClassName(t)
 			}
@@ -914,7 +919,7 @@ func typeDefault(t dsl.Type, contextNamespace string, namedType string, st dsl.S
 				return "[]", defaultValueKindMutable
 			}
 
-			scalarDefault, scalarDefaultKind := typeDefault(t.Cases[0].Type, contextNamespace, "", st)
+			scalarDefault, scalarDefaultKind := typeDefault(t.Cases[0].Type, contextNamespace, nil, st)
 
 			switch scalarDefaultKind {
 			case defaultValueKindNone:
@@ -999,7 +1004,7 @@ func typeDefinitionDefault(t dsl.TypeDefinition, contextNamespace string, st dsl
 
 		return fmt.Sprintf("%s.%s", common.TypeSyntax(t, contextNamespace), common.EnumValueIdentifierName(zeroValue.Symbol)), defaultValueKindImmutable
 	case *dsl.NamedType:
-		return typeDefault(t.Type, contextNamespace, common.TypeSyntax(t, contextNamespace), st)
+		return typeDefault(t.Type, contextNamespace, t, st)
 
 	case *dsl.RecordDefinition:
 		if len(t.TypeArguments) == 0 && len(t.TypeParameters) > 0 {
@@ -1013,13 +1018,13 @@ func typeDefinitionDefault(t dsl.TypeDefinition, contextNamespace string, st dsl
 		genericDef := st[t.GetQualifiedName()].(*dsl.RecordDefinition)
 		args := make([]string, 0)
 		for i, f := range t.Fields {
-			fieldDefaultExpr, fieldDefaultKind := typeDefault(f.Type, contextNamespace, "", st)
+			fieldDefaultExpr, fieldDefaultKind := typeDefault(f.Type, contextNamespace, nil, st)
 			if fieldDefaultKind == defaultValueKindNone {
 				return "", defaultValueKindNone
 			}
 
 			// Only write a constructor argument if it is needed, e.g. the record definition's field is generic and doesn't have a default value
-			_, genDefaultKind := typeDefault(genericDef.Fields[i].Type, contextNamespace, "", st)
+			_, genDefaultKind := typeDefault(genericDef.Fields[i].Type, contextNamespace, nil, st)
 			if genDefaultKind == defaultValueKindNone {
 				args = append(args, fmt.Sprintf("%s=%s", common.FieldIdentifierName(f.Name), fieldDefaultExpr))
 			}
@@ -1061,6 +1066,7 @@ func writeGetDTypeFunc(w *formatting.IndentedWriter, ns *dsl.Namespace) {
 					if node.Cases.IsUnion() {
 						unionClassName, _ := common.UnionClassName(node)
 						nt, isNamedType := td.(*dsl.NamedType)
+						isNamedType = isNamedType && common.IsUnionOfNamedType(nt, node)
 						if isNamedType {
 							// This is a named type defining a union, so we will use the named type's name instead
 							unionClassName = td.GetDefinitionMeta().Name
@@ -1105,9 +1111,16 @@ func writeGetDTypeFunc(w *formatting.IndentedWriter, ns *dsl.Namespace) {
 					}
 				}
 
+				// the registration of an alias is evaluated eagerly and may look up the unions nested in it
+				// (P = Pair<[int, float], [string, bool]>): those come first
+				_, isAlias := td.(*dsl.NamedType)
+				if isAlias && !isUnion {
+					writeUnionDtypeIfNeeded(td, unions, contextNamespace)
+				}
+
 				fmt.Fprintf(w, "dtype_map.setdefault(%s, %s)\n", common.TypeSyntaxWithoutTypeParameters(td, contextNamespace), typeDefinitionDTypeExpression(td, context))
 
-				if !isUnion {
+				if !isAlias {
 					writeUnionDtypeIfNeeded(td, unions, contextNamespace)
 				}
 			}
